@@ -292,7 +292,7 @@ PROPS = {
                  # blocked): the run is then cut short and reported as a crash with the case that was executing
                  timeout={"quick": 120, "thorough": 900}),
     "C08": dict(
-        pkg=".", test="TestVerifC08", model="C08", verdict="C08v", level="proof", diff_is_failure=True, also=["C15", "C03"],
+        pkg=".", test="TestVerifC08", model="C08", verdict="C08v", level="proof", diff_is_failure=True, also=["C15", "C03", "C16"],
         accept=lambda m, o: m == "-" or m == "pseq=*" or (" " + m + " ") in (" " + o + " "),
         rule="a case is a FindProviders / FindProvidersAsync (count 0,1,2,3,K) on a scripted network whose responders name "
              "overlapping provider sets with and without addresses, optionally local provider records, failing/silent "
